@@ -40,8 +40,8 @@ theorem kd_finish (h : SWO lt) {H : List Lk} {s s' : St K V} {fl : Flow K V} {k 
 
 /-- **Delete's continuations, key-order level.** -/
 theorem resume_kpost_D : ResumeKD K V := by
-  intro lt P t s k H hd hkp hpre hk hkpre hcov hO hpos
-  have hpost := resume_post_D P t s k H hd hpre hk hkpre hcov
+  intro lt P t s k H hd h4 hkp hpre hk hkpre hcov hO hpos
+  have hpost := resume_post_D P t s k H hd h4 hpre hk hkpre hcov
   have h := hkp.swo
   have hidsF := hpost.tree.ids.1
   have hparF := parTree_of_treeOk hpost.tree
@@ -73,7 +73,7 @@ theorem resume_kpost_D : ResumeKD K V := by
     have hr : Lk.node r ∈ H := hlock _ rfl
     have hk' : r = s.tree.rootId := hk
     have hon : OnRoute lt s.tree key r := by rw [hk']; exact onRoute_root hids hpar key
-    have go := delGo_k h P hkp.lt hpre.pad t key r H hr (s.acq t (.node r)) [] r hpre.tree hpre.order hk' rfl
+    have go := delGo_k h P hkp.lt hpre.pad t key r H hr (s.acq t (.node r)) [] r hpre.tree h4 hpre.order hk' rfl
       (by intro l hl; cases hl) hO hon
     exact kd_finish h hidsF hparF hids hpar hO go.ord ⟨go.eff1, go.eff2⟩ go.kpos go.widen
   | delLeft key frames node index left root =>
@@ -93,7 +93,7 @@ theorem resume_kpost_D : ResumeKD K V := by
     obtain ⟨hroot, hfr, hfrm⟩ := hk
     have hon : OnRoute lt s.tree key child := onRoute_kid hids hpar key hpos.1 hpos.2 hfrm.1
     have go := delGo_k h P hkp.lt hpre.pad t key root H hrootH (s.acq t (.node child))
-      (⟨node, index, left, child⟩ :: frames) child hpre.tree hpre.order hroot ⟨rfl, hfrm, hfr⟩ (by
+      (⟨node, index, left, child⟩ :: frames) child hpre.tree h4 hpre.order hroot ⟨rfl, hfrm, hfr⟩ (by
         intro l hl
         simp only [framesHeld, List.mem_append, List.mem_singleton] at hl
         rcases hl with hl | hl | hl
@@ -106,7 +106,7 @@ theorem resume_kpost_D : ResumeKD K V := by
     obtain ⟨hroot, hfr, hr, hsm⟩ := hk
     have hok : TreeOk (some fr.child) s.tree := hpre.tree
     have out := delRightArrive_k h P hpre.pad t key root H hrootH (s.acq t (.node right)) rest fr right
-      ⟨by simpa using hok.prime, hpre.order, hroot, hfr, fun _ => hsm⟩ (by
+      ⟨by simpa using hok.prime h4, hpre.order, hroot, hfr, fun _ => hsm⟩ (by
         intro l hl
         exact hheld _ (by simp only [kontHeld, List.mem_cons]; right; right; exact hl)) hr (hlock _ rfl) hO
     exact kd_finish h hidsF hparF hids hpar hO out.ord out.abs (kpos_of_postLeaf _ out.post) out.widen
